@@ -12,7 +12,7 @@
    AND the direct predicate on concrete inputs. *)
 From DW Require Import PyStr PropWiz PropWizMatrix PropWizDict PropWizExec PropWizPass PropWizMany PropWizFinal.
 
-(* ---- the finite matrix: 4 styles x 10 default kinds x 40 annotation kinds ---------------- *)
+(* ---- the finite matrix: 4 styles x 10 default kinds x 47 annotation kinds ---------------- *)
 (* In every cell the single-property class has the constructor signature
    (wheels = <property>), the property object is wrapped and stored under the public name
    only, constructing without the argument routes the declared default (fresh per
@@ -23,7 +23,7 @@ Theorem C16_matrix :
 Proof. exact matrix_cells. Qed.
 Print Assumptions C16_matrix.
 
-Theorem C16_matrix_size : List.length (list_prod styles (list_prod dkinds ann_table)) = 1600.
+Theorem C16_matrix_size : List.length (list_prod styles (list_prod dkinds ann_table)) = 1880.
 Proof. vm_compute; reflexivity. Qed.
 Print Assumptions C16_matrix_size.
 
